@@ -95,6 +95,8 @@ impl Engine for SemEngine {
                 // known finding K1: a call in statement position leaves its result on the stack;
                 // 300 iterations of a trivial while loop exhaust a 256-slot stack
                 vec!["sem run mod([],[fn($6d61696e,[],[setvar($63,int(#0)),while(less(readvar($63),int(#300)),composite($5f,[call($66,[]),setvar($63,add(readvar($63),int(#1)))])),setglobal($67,int(#1))]),fn($66,[],[return(int(#5))])],[]) strict".to_string()],
+                // known finding K6: `abort` inside a callee that a host function called ends only the callee
+                vec!["sem run mod([],[fn($6d61696e,[],[setglobal($67,callnative($63616c6c6261636b,[closure([$70],[abort]),int(#5)])),setglobal($68,int(#7))])],[])".to_string()],
                 // known finding K4: a call with too few arguments binds the caller's local
                 vec!["sem run mod([],[fn($6d61696e,[],[setvar($78,int(#1)),setglobal($67,call($66,[])),setglobal($68,readvar($78))]),fn($66,[$61],[return(readvar($61))])],[])".to_string()],
             ])
